@@ -48,7 +48,9 @@ type Set struct {
 	// SyncPoints: configuration projection at the first write that persists (step k, StepPaused), as long as the user has
 	// done nothing but release / approve (C06 compares them between runs)
 	SyncPoints map[string]map[string]interface{}
-	brAtExit   string // state of the BatchRelease when the user's last exit action was written: none | deleting | live
+	brAtExit   string
+	// publishedDuringCleanup: the user published another revision while the cleanup of a completed release was running
+	publishedDuringCleanup bool // state of the BatchRelease when the user's last exit action was written: none | deleting | live
 
 	st01 c01state
 	st02 c02state
@@ -249,6 +251,13 @@ func (s *Set) onWrite(w *simapi.Write, v *simapi.View) {
 	}
 	if w.Actor == "user" && w.Key == s.S.WorkloadKey() && w.Before != nil && w.After != nil && workloadImage(w.Before) != workloadImage(w.After) {
 		s.brCreatedSinceRelease = false
+		if s.prev != nil {
+			if pro := s.prev.GetKey(simapi.Key{Group: "rollouts.kruise.io", Kind: "Rollout", NS: s.ns, Name: s.S.RolloutName()}); pro != nil {
+				if reason, _ := condReason(pro, "Progressing"); reason == "Finalising" && simapi.Str(pro, "status.phase") == "Progressing" {
+					s.publishedDuringCleanup = true
+				}
+			}
+		}
 	}
 	if w.Actor == "user" {
 		isExit := false
